@@ -80,7 +80,10 @@ def oracle(prog, obs, impl):
                             newvol = before['vol'] + x * histcheck.measure(subs, one, 'L') * 10**6
                             if x > 0 and newvol <= before['max'] * (1 - F(1, 10**4)):
                                 fails.append((i, f"dilute to {dsl.conc_str(c)} needs {float(newvol)!r} uL of the container's {float(before['max'])!r} uL but was refused: {o['exc']} {o.get('msg')}"))
-                elif tv > cur * (1 + F(1, 10**4)) and o['exc'] != 'ValueError':
+                elif tv > cur * (1 + F(1, 10**4)) and o['exc'] != 'ValueError' and \
+                        conc_den(subs, {'cont': {op['solvent']: F(1)}, 'vol': F(0), 'max': None, 't': 'c'}, target[2]):
+                    # (a solvent that adds nothing to the denominator -- a solid without volume under default densities inf and a
+                    #  per-volume target -- makes the request meaningless; the library then fails in its arithmetic: not judged)
                     fails.append((i, f"dilute above the current concentration raised {o['exc']} instead of ValueError"))
         if op['op'] == 'fill' and 'c' in op['t'] and op['t']['c'] in dumps and o['ok']:
             before, after = dumps[op['t']['c']], o['out'][0][1]
